@@ -77,3 +77,37 @@ package sql
 //@ func (*Persister).DeleteAllRelationTuples$1
 //@   props C06
 //@   requires p != nil && wfquery(query)
+
+// ---- the raw-SQL traverser (C06 network binding, C07 cursor, C13 safety)
+//@ spec wft(t *Traverser) bool = t != nil && t.conn != nil && t.d != nil && t.p != nil
+
+//@ func whereSubject
+//@   props C04 C06 C13
+//@   modifies nothing
+//@   requires sub == nil || wfsubject(sub)
+//@   ensures[C06] placeholders-match-args: err == nil ==> qmarks(sqlFragment) == len(args)
+//@   ensures isnil(args) || fresh(args)
+
+//@ func (*Traverser).TraverseSubjectSetExpansion
+//@   props C06 C07 C13 C17
+//@   opt dead-ok return nil, errors.WithStack(err)
+//@   requires wft(t) && ctx != nil && start != nil && (start.Subject == nil || wfsubject(start.Subject))
+//@   modifies db
+//@   ensures[C17] read-only: db == old(db)
+//@   callsite Sprintf requires[C06] outer-query-is-network-scoped: litcontains($arg0, "WHERE current.nid = ? AND") && litqbefore($arg0, "current.nid = ?") == 0 && litindex($arg0, "%s") >= 0 && litindex($arg0, "%s") < litindex($arg0, "current.nid = ?") && litcount($arg0, "%s") == 1
+//@   callsite Sprintf requires[C06] inner-exists-is-network-scoped: litcontains($arg0, "WHERE nid = current.nid AND")
+//@   callsite Sprintf requires[C07] keyset-shape: litcontains($arg0, "current.shard_id > ? AND") && litcontains($arg0, "ORDER BY current.shard_id") && litcontains($arg0, "LIMIT ?") && litqbefore($arg0, "current.shard_id > ?") == 1 && litcount($arg0, "?") == 6
+//@   callsite (*Connection).RawQuery requires[C06] nid-argument-position: qmarks(targetSubjectSQL) == len(targetSubjectArgs) && len($arg2) == len(targetSubjectArgs) + 6 && as($arg2[len(targetSubjectArgs)], uuid.UUID) == netid(t.p, now(ctx))
+//@   callsite (*Connection).RawQuery requires[C07] cursor-and-limit-arguments: as($arg2[len(targetSubjectArgs) + 1], uuid.UUID) == shardID && as($arg2[len(targetSubjectArgs) + 5], int) == limit
+//@   loop 1 invariant db == old(db) && wft(t) && ctx != nil && (isnil(res) || fresh(res))
+//@   loop 1 step[C07] cursor-is-last-row-of-a-full-page: len(rows) == limit && shardID == rows[len(rows) - 1].RelationTuple.ID
+//@   loop 2 invariant db == old(db) && (isnil(res) || fresh(res))
+
+//@ func (*Traverser).TraverseSubjectSetRewrite
+//@   props C06 C13 C17
+//@   opt dead-ok return nil, errors.WithStack(err)
+//@   requires wft(t) && ctx != nil && start != nil && (start.Subject == nil || wfsubject(start.Subject))
+//@   modifies db
+//@   ensures[C17] read-only: db == old(db)
+//@   loop 1 invariant db == old(db) && (isnil(relations) || fresh(relations))
+//@   loop 2 invariant db == old(db) && (isnil(res) || fresh(res))
